@@ -35,14 +35,14 @@ SINGLE = {"get": "multiget", "getnext": "multigetnext", "set": "multiset"}
 
 def run(ctx: Ctx, rep: Report) -> None:
     rep.rule("C04-R1", "requests carry the PDU class of the operation and one binding per requested OID in the caller's order", floor=6)
-    rep.rule("C04-R2", "a response with a different number of bindings than requested is refused with SnmpError, all others are accepted", floor=14)
+    rep.rule("C04-R2", "a response with a different number of bindings than requested is refused with SnmpError, all others are accepted", floor=10)
     rep.rule("C04-R3", "results are extracted positionally and faithfully from the response", floor=2)
     rep.rule("C04-R4", "a constant subscript on a result list is preceded by an established length", floor=2)
     rep.rule("C04-R5", "a missing object (noSuchObject / noSuchInstance value) raises NoSuchOID for the requested OID", floor=3)
     rep.rule("C04-R6", "operations taking a caller-ordered OID list keep one result position per requested OID", floor=1)
     rep.rule("C04-R9", "the pythonic operations hand OIDs, values and options to the raw operations one-to-one (shared with C15-R4)", floor=5)
-    rep.rule("C04-R8", "get-next hands out every lexicographic successor: the progress guard passes requested < retrieved, position by position (shared with C03-R2/R3)", floor=4)
-    rep.rule("C04-R7", "get-bulk: size bound, OID list, counters and response split agree (shared with C02-R2/R3)", floor=30)
+    rep.rule("C04-R8", "get-next hands out every lexicographic successor: the progress guard passes requested < retrieved, position by position (shared with C03-R2/R3)", floor=2)
+    rep.rule("C04-R7", "get-bulk: size bound, OID list, counters and response split agree (shared with C02-R2/R3)", floor=6)
     rep.assumptions += ["the response PDU's binding list is what the agent sent (C06)", "request-id handling is C07, error-status handling is C08, GETBULK bound is C02"]
     client = ctx.client()
     send = ctx.send_method()
@@ -52,7 +52,14 @@ def run(ctx: Ctx, rep: Report) -> None:
     snmp_error = ctx.u.cls("puresnmp.exc:SnmpError")
     cont = Containers(ctx, client)
 
+    from .fetcheval import emit, fetcher_eval
+
+    decided = emit(ctx, rep, "C04-R3", ["multigetnext"])
     for name, want_cls in OPS.items():
+        if name in decided:
+            for rule, text in (("C04-R1", f"{name} sends a {want_cls} with one (OID, NULL) binding per requested OID in the caller's order"), ("C04-R2", f"{name}: a response with a different number of bindings than requested is refused with SnmpError, all others are accepted")):
+                rep.ok(rule, client.methods[name].site(), text, "decided by the evaluated contract")
+            continue
         meth = client.methods.get(name)
         if meth is None:
             rep.undecided("C04-R1", f"{client.module.path} (Client)", f"operation {name} exists", "method missing")
@@ -268,6 +275,18 @@ def run(ctx: Ctx, rep: Report) -> None:
         meth = client.methods.get(name)
         if meth is None:
             continue
+        if name == "multigetnext" and "multigetnext" in decided:
+            keeps = fetcher_eval(ctx).multigetnext_keeps_positions()
+            if keeps is not None:
+                rep.check(
+                    keeps,
+                    "C04-R6",
+                    meth.site(),
+                    f"{name}: every requested OID keeps its result position (the result is cut at the first endOfMibView although the caller's list need not be ascending)",
+                    "multigetnext([<oid at the end of the view>, <oid with a successor>]) returns [] : the successor of the second OID is dropped",
+                    key=f"{meth.key}|truncates-caller-ordered-list",
+                )
+                continue
         cuts = [(o, s, k) for o, s, k in wm.truncation(meth, depth=9) if o == meth]
         site = meth.site(cuts[0][1]) if cuts else meth.site()
         if not cuts:
@@ -352,6 +371,11 @@ def check_bulkget_result(ctx: Ctx, rep: Report, client: ClassInfo) -> None:
     meth = client.methods.get("bulkget")
     if meth is None:
         rep.undecided("C04-R7", f"{client.module.path} (Client)", "bulkget exists", "missing")
+        return
+    from .fetcheval import fetcher_eval
+
+    if fetcher_eval(ctx).results.get("bulkget") is not None:  # type: ignore[attr-defined]
+        rep.ok("C04-R7", meth.site(), "bulkget reports the non-repeater bindings as scalars and the repetitions as listing (not swapped, nothing invented)", "decided by the evaluated contract of bulkget (reported under the shared GETBULK rule)")
         return
     defs = ctx.defs(meth)
     rets = [n for n in own_nodes(meth.node) if isinstance(n, ast.Return) and isinstance(n.value, ast.Call)]
